@@ -18,7 +18,15 @@ PROPS = {
    design_ref="DESIGN.md 5.2, 4", technique="runtime monitoring: event-replay oracle (delta well-formedness and minimality) over the same cache executions"),
 }
 
+PROPS["C03"] = dict(engine="E4", level="exploration",
+   rule="one case = one seeded scenario: real controller (filter from a family of 6 incl. FN and Not, refresh period in {1s,10s,1min}) over the fake API server; 3-6 phases of server mutations with per-call list latencies (0..3P, snapshot early or late) and per-stream watch faults (error, never connects, close after j, drop, duplicate, Status/Bookmark/unknown frames), followed by quiescence in virtual time; plus dedicated modes where the watch never delivers (blocks / errors / drops all). Non-trivial = the scenario reached at least one convergence check; distinct = distinct scenario descriptor.",
+   assumptions=["fake API server follows Kubernetes list/watch semantics (monotone resourceVersion, watch delivers events after the requested version)", "virtual time via testing/synctest; runnable-goroutine order is the real scheduler's, widened by logger perturbation"],
+   floors={"any": {"convergence-checks": 50, "per-list-checks": 10, "restart-version-checks": 50, "mirror-checks": 20}},
+   level_text="Seeded exploration of (server history x fault sequence x schedule perturbation) with exact oracles at virtual-time quiescence: cache == accepted(server) after one relist past quiescence, cache == accepted(list k) while the watch is dead, subscriber mirror == cache, watch restarted at each list's version and never from the future.",
+   design_ref="DESIGN.md 5.3", technique="runtime monitoring: convergence / mirror / restart-version oracles over a fault-injecting fake API server in virtual time, race detector on")
+
 ENGINES = {
  "E1": dict(path="harness/engines/e01_cache_test.go", kind="direct drive of the cache actor vs reference model R-cache; exhaustive small universe + random walks"),
+ "E4": dict(path="harness/engines/e04_converge_test.go", kind="real controller over fault-injecting fake API server; convergence oracles at virtual-time quiescence"),
 }
 NA = {}
